@@ -278,6 +278,11 @@ func runC15(c *core.Ctx, o Options) {
 	s.checkCallbacksOutsideStateLock("U4")
 	// U6 (premise): the all-types handlers (which restore SuccessfulLogged from a pending probe) run before the Logout handler
 	checkInboundDispatch(c, "U6")
+	// U6 (premise): the session's Logout handler stays registered — a Remove never drops a non-empty handler list
+	checkPoolGrowOnly(c, "U6")
+	// U8 (premise): the one Logout reaches the wire — the enqueue waits for room in the outgoing queue (or for the handler to
+	// stop) and never gives up on a slow consumer
+	checkBatchDelivery(c, "U8")
 	// U3 (the deadline stays armed): Stop itself never stops the timer it has just armed — only the logout-event callback does
 	if st := s.m.Method("Stop"); st != nil {
 		bad := ""
@@ -290,10 +295,41 @@ func runC15(c *core.Ctx, o Options) {
 				bad = "Stop calls (or defers) " + an.NameOf(cal) + " on " + an.Render(cc.Args[0]) + " at " + c.RelPos(in.Pos())
 			}
 		})
+		// … and nothing Stop sets up postpones it: no function literal of Stop resets the timer, and the only one that stops it is the
+		// logout-event callback (a handler that re-arms the deadline on every inbound message lets a peer that keeps talking but
+		// never answers the Logout hold the session open for ever)
+		for _, cl := range an.WithAnon(st) {
+			if cl == st {
+				continue
+			}
+			isLogoutCb := false
+			an.AllInstrs(st, func(in ssa.Instruction) {
+				if call, ok := in.(*ssa.Call); ok {
+					if cal := an.StaticCallee(&call.Call); cal != nil && (an.FuncIs(cal, "session", "Session.OnChangeState") || an.FuncIs(cal, "utils", "EventHandlerPool.Handle")) && len(call.Call.Args) == 3 {
+						if an.ClosureFn(call.Call.Args[2]) == cl && evName(call.Call.Args[1]) == "EventLogout" {
+							isLogoutCb = true
+						}
+					}
+				}
+			})
+			an.AllInstrs(cl, func(in ssa.Instruction) {
+				cc := an.CallOf(in)
+				if cc == nil {
+					return
+				}
+				cal := an.StaticCallee(cc)
+				if cal == nil {
+					return
+				}
+				if an.FuncIs(cal, "time", "Timer.Reset") || (an.FuncIs(cal, "time", "Timer.Stop") && !isLogoutCb) {
+					bad = an.NameOf(cl) + " (set up by Stop) calls " + an.NameOf(cal) + " on " + an.Render(cc.Args[0]) + " at " + c.RelPos(in.Pos())
+				}
+			})
+		}
 		c.Check(bad == "", "U3", "Stop", "the close deadline armed by Stop is left running", st.Pos(), "no Timer.Stop/Reset in Stop itself", bad+": the deadline callback never fires, and a peer that does not answer the Logout keeps the session alive for ever")
 	}
-	c.Explanation += " U3 also: Stop itself never stops or resets the deadline timer it armed. U4 also: callbacks are triggered with no session mutex held. U6 premise: the inbound dispatch order (all-types handlers before the Logout handler)."
-	c.RuleMin = map[string]int{"M1": 3, "U1": 3, "U2": 1, "U3": 3, "U4": 4, "U5": 3, "U6": 5, "U7": 6}
+	c.Explanation += " U8 premise (= C10.Y8): sendRaw blocks until there is room in the queue or the handler stops; it never drops. U5 also: Handle never runs the callback it registers. U3 also: no function literal set up by Stop resets the deadline, and only the logout-event callback stops it." + " U3 also: Stop itself never stops or resets the deadline timer it armed. U4 also: callbacks are triggered with no session mutex held. U6 premises: the inbound dispatch order (all-types handlers before the Logout handler); registered handlers stay registered (only an empty handler list is deleted). U5 also: Trigger does not hold the pool's mutex exclusively while the callbacks run (a callback may raise an event itself)."
+	c.RuleMin = map[string]int{"M1": 3, "U1": 3, "U2": 1, "U3": 3, "U4": 4, "U5": 5, "U6": 8, "U8": 3, "U7": 6}
 	c.MinObl = 12
 }
 
@@ -327,6 +363,24 @@ func checkEventPool(c *core.Ctx, rule string) {
 	// Handle: every update of the pool's map appends the new callback at the end of the event's list (directly, or through a
 	// helper that returns an ordered copy plus one)
 	checkEventPoolUpdates(c, rule)
+	// Handle only registers: it never calls the callback itself (a "late subscriber" replay fires a subscriber for an event of an
+	// earlier logon period — Stop's logout callback would cancel the session the moment Stop is called)
+	{
+		callsCb := ""
+		for _, f := range append([]*ssa.Function{handle}, pkgHelpersOf(handle)...) {
+			an.AllInstrs(f, func(in ssa.Instruction) {
+				cc := an.CallOf(in)
+				if cc == nil || cc.IsInvoke() || an.StaticCallee(cc) != nil {
+					return
+				}
+				if _, isB := cc.Value.(*ssa.Builtin); isB {
+					return
+				}
+				callsCb = an.Render(cc.Value) + " at " + c.RelPos(in.Pos())
+			})
+		}
+		c.Check(callsCb == "", rule, "EventHandlerPool.Handle", "registration does not run the callback", handle.Pos(), "no dynamic call in Handle", "Handle calls "+callsCb+": a subscriber registered after an event of an earlier period is run at once, for an event that has not happened in this one")
+	}
 	// Trigger: range over the slice in index order; return on first false
 	var rng *ssa.Phi
 	okOrder, okStop, calls := false, false, 0
@@ -340,6 +394,16 @@ func checkEventPool(c *core.Ctx, rule string) {
 		}
 		// dynamic call of a handler: the callee must be handlers[i] with i the range index
 		calls++
+		// callbacks raise events themselves (Logout() from a logon callback, the disconnect event from a timer): the pool's mutex
+		// must not be held exclusively while they run, or the nested Trigger blocks on it for ever
+		if held := an.HeldExclusiveAt(trigger, call); true {
+			k := ""
+			if len(held) > 0 {
+				k = an.SortedKeys(held)[0]
+			}
+			c.Check(len(held) == 0, rule, "EventHandlerPool.Trigger", "callbacks run without the pool's mutex held exclusively", call.Pos(), "read lock (or none) while the callbacks run",
+				"Trigger calls the callbacks with "+k+" locked exclusively: a callback that raises an event itself (Logout() or Stop() from a logon callback) blocks for ever in the nested Trigger — the Logout is never sent and the logout event never signalled")
+		}
 		r := an.Render(call.Call.Value)
 		if u, ok := call.Call.Value.(*ssa.UnOp); ok {
 			if ia, ok := u.X.(*ssa.IndexAddr); ok {
